@@ -22,6 +22,7 @@
    Chunk.__getitem__ and the Chunk constructors on out-of-range slices, the `assert`s of
    set_byte / set_slice / slice.  Values are never the receiver itself.               *)
 From Coq Require Import List Arith Bool.
+From HV Require Import Spec.ByteVecSpec.
 Import ListNotations.
 
 Section Model.
@@ -299,6 +300,24 @@ Definition apply_op (v : bvec) (o : op) : bvec :=
 
 Definition run_ops (ops : list op) : bvec := fold_left apply_op ops empty.
 
+(* what an operation means on the flat array: values are replaced by the bytes they denote *)
+Definition abs_op (o : op) : fop B :=
+  match o with
+  | OAppend val => FAppend (cflat val)
+  | OSetByte off _ x => FSetByte off x
+  | OSetSlice a b val => FSetSlice a b (cflat val)
+  | OSetWord off val => FSetSlice off (off + 32) (cflat val)
+  | OCopyWithin dst a b => FCopyWithin dst a b
+  | OAppendSelf a b => FAppendSelf a b
+  end.
+
+(* values handed to an operation are well-formed chunks / ByteVecs *)
+Definition op_ok (o : op) : Prop :=
+  match o with
+  | OAppend val | OSetSlice _ _ val | OSetWord _ val => wfc val
+  | _ => True
+  end.
+
 End Model.
 
 Arguments Leaf {B}.
@@ -336,3 +355,7 @@ Arguments OSetWord {B}.
 Arguments OCopyWithin {B}.
 Arguments OAppendSelf {B}.
 Arguments or_unchanged {B}.
+Arguments abs_op {B}.
+Arguments op_ok {B}.
+Arguments apply_op {B}.
+Arguments run_ops {B}.
